@@ -27,110 +27,79 @@ mod verif_acc {
     }
 
     const N: usize = 4;
-    const L: usize = 5;
-    type Log = ([(u8, u8); L + 1], usize);
+    const L: usize = 4;
 
-    fn drive(acc: &mut CobsAccumulator<N>, chunk: &[u8], log: &mut Log) {
-        // the documented loop
-        let mut window = chunk;
-        let mut guard = 0;
-        while !window.is_empty() {
-            guard += 1;
-            assert!(guard <= 2 * L + 2, "SPEC: the documented feed loop must make progress");
-            window = match acc.feed::<u8>(window) {
-                FeedResult::Consumed => break,
-                FeedResult::OverFull(w) => {
-                    log.0[log.1] = (3, 0);
-                    log.1 += 1;
-                    w
-                }
-                FeedResult::DeserError(w) => {
-                    log.0[log.1] = (2, 0);
-                    log.1 += 1;
-                    w
-                }
-                FeedResult::Success { data, remaining } => {
-                    log.0[log.1] = (1, data);
-                    log.1 += 1;
-                    remaining
-                }
-            };
-        }
-    }
-
+    /// One feed_ref call from an ARBITRARY accumulator state (idx <= N, symbolic buffer) on an arbitrary chunk of <= 4 bytes:
+    /// the clauses of C08 and C09 exactly as they are stated as Verus postconditions (conserve, frame_fits, append_fits,
+    /// reset, overfull, progress), with crate::from_bytes_cobs on a copy of view ++ segment as the isolated decoding.
     #[kani::proof]
-    #[kani::unwind(14)]
-    fn acc_small() {
-        let stream: [u8; L] = kani::any();
+    #[kani::unwind(7)]
+    fn feed_ref_step() {
+        let buf: [u8; N] = kani::any();
+        let idx: usize = kani::any();
+        kani::assume(idx <= N);
+        let chunk: [u8; L] = kani::any();
         let len: usize = kani::any();
         kani::assume(len <= L);
-        let cut: usize = kani::any();
-        kani::assume(cut <= len);
-        // C08 hypothesis: every zero-terminated segment (and the unterminated tail) fits the capacity
-        let mut seg_len = 0;
+        let input = &chunk[..len];
+        // first zero of the chunk (len if none)
+        let mut z = len;
         let mut i = 0;
-        let mut fits = true;
-        // reference: decode each segment in isolation
-        let mut want: Log = ([(0, 0); L + 1], 0);
-        let mut seg = [0u8; N + 1];
         while i < L {
-            if i < len {
-                if seg_len < N + 1 {
-                    seg[seg_len] = stream[i];
-                }
-                seg_len += 1;
-                if stream[i] == 0 {
-                    if seg_len > N {
-                        fits = false;
-                    } else {
-                        let mut copy = seg;
-                        want.0[want.1] = match crate::from_bytes_cobs::<u8>(&mut copy[..seg_len]) {
-                            Ok(v) => (1, v),
-                            Err(_) => (2, 0),
-                        };
-                        want.1 += 1;
-                    }
-                    seg_len = 0;
-                }
+            if i < len && chunk[i] == 0 && z == len {
+                z = i;
             }
             i += 1;
         }
-        if seg_len > N {
-            fits = false;
+        let mut acc = CobsAccumulator::<N> { buf, idx };
+        let base = input.as_ptr() as usize;
+        let (kind, data, rem_off, rem_len) = match acc.feed_ref::<u8>(input) {
+            FeedResult::Consumed => (0u8, 0u8, len, 0usize),
+            FeedResult::OverFull(r) => (3, 0, r.as_ptr() as usize - base, r.len()),
+            FeedResult::DeserError(r) => (2, 0, r.as_ptr() as usize - base, r.len()),
+            FeedResult::Success { data, remaining } => (1, data, remaining.as_ptr() as usize - base, remaining.len()),
+        };
+        let idx2 = acc.idx;
+        kani::cover!(kind == 1);
+        kani::cover!(kind == 3 && z < len);
+        kani::cover!(kind == 3 && z == len);
+        assert!(idx2 <= N, "representation invariant idx <= N");
+        // C08 conserve: the remainder is a suffix of the chunk
+        if kind != 0 {
+            assert!(rem_off + rem_len == len, "SPEC: the returned remainder must be a suffix of the chunk");
         }
-        kani::assume(fits);
-        kani::cover!(want.1 >= 2);
-        let mut acc: CobsAccumulator<N> = CobsAccumulator::new();
-        let mut got: Log = ([(0, 0); L + 1], 0);
-        drive(&mut acc, &stream[..cut], &mut got);
-        drive(&mut acc, &stream[cut..len], &mut got);
-        assert!(got.1 == want.1, "SPEC: exactly one result per zero byte");
-        let k: usize = kani::any();
-        kani::assume(k < want.1);
-        assert!(got.0[k] == want.0[k], "SPEC: the k-th result must equal decoding the k-th segment in isolation");
-    }
-
-    /// C09 witness: arbitrary garbage / over-long segments: no panic, idx stays in bounds, and a well-formed frame after any zero byte is delivered
-    #[kani::proof]
-    #[kani::unwind(14)]
-    fn acc_garbage_then_frame() {
-        let junk: [u8; L] = kani::any();
-        let jl: usize = kani::any();
-        kani::assume(jl <= L);
-        let mut acc: CobsAccumulator<N> = CobsAccumulator::new();
-        let mut log: Log = ([(0, 0); L + 1], 0);
-        drive(&mut acc, &junk[..jl], &mut log);
-        assert!(acc.idx <= N, "representation invariant idx <= N");
-        // a zero byte resynchronises ...
-        let mut l2: Log = ([(0, 0); L + 1], 0);
-        drive(&mut acc, &[0u8], &mut l2);
-        assert!(acc.idx == 0, "SPEC: back in the initial state after a zero byte");
-        // ... so the frame of any u8 that follows is delivered intact
-        let v: u8 = kani::any();
-        let mut fb = [0u8; 4];
-        let fl = crate::to_slice_cobs(&v, &mut fb).unwrap().len();
-        let mut l3: Log = ([(0, 0); L + 1], 0);
-        drive(&mut acc, &fb[..fl], &mut l3);
-        assert!(l3.1 == 1 && l3.0[0] == (1, v), "SPEC: a well-formed frame after a zero byte must be delivered intact");
+        if z < len && idx + z + 1 <= N {
+            // C08 frame_fits: exactly the isolated decoding of view ++ segment; rest handed back; buffer reset
+            let mut seg = [0u8; N];
+            let mut k = 0;
+            while k < N {
+                if k < idx { seg[k] = buf[k]; } else if k < idx + z + 1 { seg[k] = chunk[k - idx]; }
+                k += 1;
+            }
+            let want = crate::from_bytes_cobs::<u8>(&mut seg[..idx + z + 1]);
+            match want {
+                Ok(v) => assert!(kind == 1 && data == v, "SPEC: a terminated segment that fits must yield its isolated decoding"),
+                Err(_) => assert!(kind == 2, "SPEC: an undecodable segment that fits must yield DeserError"),
+            }
+            assert!(rem_off == z + 1 && rem_len == len - z - 1, "SPEC: everything after the sentinel must be handed back");
+            assert!(idx2 == 0, "SPEC: back in the initial state after a zero byte");
+        } else if z == len && idx + len <= N {
+            // C08 append_fits
+            assert!(kind == 0, "SPEC: an unterminated piece that fits must be Consumed");
+            assert!(idx2 == idx + len, "SPEC: ... and buffered completely");
+            let j: usize = kani::any();
+            kani::assume(j < idx2);
+            assert!(acc.buf[j] == if j < idx { buf[j] } else { chunk[j - idx] }, "SPEC: buffered bytes must be view ++ chunk");
+        } else if z < len {
+            // C09 overfull with terminator
+            assert!(kind == 3 && rem_off == z + 1, "SPEC: an over-long segment must be reported OverFull by the call that receives its sentinel");
+            assert!(idx2 == 0, "SPEC: back in the initial state after a zero byte");
+        } else {
+            assert!(kind == 3, "SPEC: overflow without terminator must be reported OverFull");
+        }
+        // C09 progress
+        if len > 0 {
+            assert!(rem_len < len || (rem_len == len && idx == N && idx2 == 0), "SPEC: the documented loop must make progress");
+        }
     }
 }
